@@ -258,6 +258,11 @@ class Kernel:
                 fds = struct.unpack_from("<%di" % nf, msg, 11)
                 off = 11 + 4 * nf
                 sl = struct.unpack_from("<I", msg, off)[0]
+                if sl and p.role == "client":
+                    # the client's guarded hook: (in seq, in frag, in len, out seq, out frag, out len, out offset, out sentlen,
+                    # id, previous id, id before that, connection type, lazy, userid)
+                    p.cstate = struct.unpack_from("<%di" % (sl // 4), msg, off + 4)
+                    sl = 0
                 if sl:
                     raw = msg[off + 4: off + 4 + sl]
                     p.snapshot = [dict(zip(SNAP_FIELDS, struct.unpack_from(SNAP_FMT, raw, i * SNAP_SIZE)))
@@ -265,7 +270,9 @@ class Kernel:
                     p.snap_seq += 1
                 p.nwaits += 1
                 p.cause = None
-                if self.keep_snaps and p.snapshot:
+                if self.keep_snaps and p.role == "client" and getattr(p, "cstate", None) is not None:
+                    self.emit("wait", p.name, fds=fds, timeout=to, snap=p.snap_seq, cstate=p.cstate)
+                elif self.keep_snaps and p.snapshot:
                     # quiescent-point hook: the users[] table as the server sees it at this select()
                     self.emit("wait", p.name, fds=fds, timeout=to, snap=p.snap_seq, rows=p.snapshot)
                 else:
